@@ -51,11 +51,11 @@ theorem C13_clear_state (tb : Tabs) (s : State) (hw : WF tb s) :
 theorem chkC13_ok (tb : Tabs) (s : State) (op : Op) (hw : WF tb s) : chkC13 (recOf tb.cfg s op) = true := by
   cases op with
   | clear =>
-    show (Obs.ofState (clearState s) == Obs.fresh s.set && ([] : List EvObs).isEmpty) = true
+    show (Obs.ofState (clearState s) == Obs.fresh s.set) = true
     rw [C13_clear_state tb s hw, c13_ofState_initWith]
     simp
   | init =>
-    show (Obs.ofState initState == Obs.fresh Settings.init && ([] : List EvObs).isEmpty) = true
+    show (Obs.ofState initState == Obs.fresh Settings.init) = true
     have : Obs.ofState initState = Obs.fresh Settings.init := c13_ofState_initWith Settings.init _ 0
     rw [this]
     simp
